@@ -229,6 +229,71 @@ class OldEnv:
         return compile(t, "<clause>", "eval")
 
 
+CALLS = []   # (qualname, result) of wrapped callees
+
+
+def wrap_calls(names):
+    """Record calls (and results) of the named functions, for clauses using called()/call_result()."""
+    import importlib
+    for key in names:
+        mod, qn = key.split(":")
+        m = importlib.import_module(mod)
+        if "." in qn:
+            cn, mn = qn.split(".", 1)
+            cls = getattr(m, cn)
+            orig = getattr(cls, mn)
+
+            def w(*a, _o=orig, _q=qn, **k):
+                r = _o(*a, **k)
+                CALLS.append((_q, r))
+                return r
+            setattr(cls, mn, w)
+        else:
+            orig = getattr(m, qn)
+
+            def w(*a, _o=orig, _q=qn, **k):
+                r = _o(*a, **k)
+                CALLS.append((_q, r))
+                return r
+            for name, mm in list(sys.modules.items()):
+                if name.startswith("codelimit") and mm is not None and getattr(mm, qn, None) is orig:
+                    setattr(mm, qn, w)
+
+
+def called(name):
+    return any(q == name for q, _ in CALLS)
+
+
+def call_count(name):
+    return sum(1 for q, _ in CALLS if q == name)
+
+
+def call_result(name):
+    for q, r in reversed(CALLS):
+        if q == name:
+            return r
+    raise KeyError(name)
+
+
+def out_len():
+    return len(TRACE)
+
+
+def out_method(k):
+    try:
+        return TRACE[k].method
+    except IndexError:
+        return "<none>"
+
+
+def out_arg(k, j):
+    return view(TRACE[k].args[j])
+
+
+def out_kw(k, name):
+    return view(TRACE[k].kwargs.get(name))
+
+
 def base_env():
     import importlib.util
     import os
@@ -241,6 +306,7 @@ def base_env():
     g = globals()
     for k in ("forall", "exists", "implies", "iff", "ite", "is_none", "count_if", "sum_if", "same_list", "list_eq", "fmt",
               "strcat", "has_key", "typename", "trace_len", "trace_method", "trace_arg", "trace_kw", "trace_target",
-              "iter_trace_len", "iter_trace_method", "iter_trace_arg", "iter_trace_kw"):
+              "iter_trace_len", "iter_trace_method", "iter_trace_arg", "iter_trace_kw", "called", "call_count", "call_result",
+              "out_len", "out_method", "out_arg", "out_kw"):
         env[k] = g[k]
     return env
